@@ -54,6 +54,8 @@ def gen(tape, cfg):
             "is_async": {k: bool(tape.draw(4, "async." + k)) for k in "abcd"},
             "falsy": {k: tape.chance(25, 100, "falsy." + k) for k in "abcd"},
             "second_step": tape.chance(50, 100, "second"),
+            # the second step refers to the first resource's factory through a descriptor with the opposite cache flag
+            "alt_desc": tape.chance(30, 100, "alt-desc"),
             "steps": [], "types": ["E0"], "driver": "finish", "timeout": None}
 
 
@@ -129,14 +131,16 @@ def build(world, spec):
         if not facs[k].__dict__.get("__signature__"):
             set_deps(k, [])
 
-    def make_step(name, accepts, uses, ret_stop=False, sends=None):
+    alt = {k: Resource(facs[k], cache=not spec["cache"][k]) for k in "abcd"}
+
+    def make_step(name, accepts, uses, ret_stop=False, sends=None, use_alt=False):
         async def fn(self, ctx, ev, r0=None, r1=None):
             rec = world._enter({"name": name}, ctx, ev)
             kind = "returned"
             try:
                 inj = {"r0": r0, "r1": r1}
                 world.trace.log("inject", step=name, inv=rec["inv"], objs={p: (v.ident() if isinstance(v, Tag) else None) for p, v in inj.items()},
-                                tree={p: _tree(v) for p, v in inj.items() if isinstance(v, Tag)})
+                                tree={p: _tree(v) for p, v in inj.items() if isinstance(v, Tag)}, alt=["r0"] if use_alt else [])
                 await world.work()
                 if sends:
                     for i in range(sends):
@@ -156,7 +160,7 @@ def build(world, spec):
         fn.__qualname__ = f"ResWf.{name}"
         ann = {"ctx": Context, "ev": accepts, "return": Optional[StopEvent] if not sends else Union[EV.E0, None]}
         for i, u in enumerate(uses):
-            ann[f"r{i}"] = Annotated[Any, res[u]]
+            ann[f"r{i}"] = Annotated[Any, (alt if (use_alt and i == 0) else res)[u]]
         fn.__annotations__ = ann
         return fn
 
@@ -164,7 +168,10 @@ def build(world, spec):
           "w0": step(num_workers=spec["workers"])(make_step("w0", EV.E0, top)),
           "zfin": step(num_workers=1)(make_step("zfin", EV.Fin, [], ret_stop=True))}
     if spec["second_step"]:
-        ns["w1"] = step(num_workers=spec["workers"])(make_step("w1", EV.E0, top[:1]))
+        use_alt = bool(spec.get("alt_desc")) and spec["shape"] != "cycle"
+        if use_alt:
+            world.probe("same-factory-cached-and-non-cached")
+        ns["w1"] = step(num_workers=spec["workers"])(make_step("w1", EV.E0, top[:1], use_alt=use_alt))
     cls = type("ResWf", (Workflow,), ns)
     cls.__module__ = __name__
     return cls(timeout=None, runtime=world.runtime), top
@@ -210,6 +217,16 @@ def check(world, spec, outcome) -> None:
                     slot_open[k] = False
                     resolving -= 1
                     break
+    deps_of = {"chain": {"a": ["b"], "b": ["c"]}, "diamond": {"a": ["b", "c"], "b": ["d"], "c": ["d"]}, "cycle": {"a": ["b"], "b": ["a"]},
+               "two-shared": {"a": ["d"], "b": ["d"]}}.get(spec["shape"], {})
+
+    def async_in_closure(name, seen=()):
+        # root-cause attribute of the known creation race: does resolving this resource suspend at all (an async factory in its closure)?
+        if name in seen:
+            return False
+        return bool(spec["is_async"][name]) or any(async_in_closure(d, seen + (name,)) for d in deps_of.get(name, []))
+    alt_used = bool(spec.get("alt_desc")) and spec.get("second_step") and spec["shape"] != "cycle"
+    alt_name = (spec.get("_top") or ["a"])[0] if alt_used else None
     for seq, t, kind, f in recs:
         if kind == "factory-start":
             open_fac[f["res"]] = open_fac.get(f["res"], 0) + 1
@@ -219,18 +236,24 @@ def check(world, spec, outcome) -> None:
             open_fac[f["res"]] -= 1
         elif kind == "create":
             creations.setdefault(f["res"], []).append(seq)
-            if cache[f["res"]] and len(creations[f["res"]]) > 1:
-                world.violate("C22.cached-twice", f"cached resource {f['res']} created {len(creations[f['res']])} times for one workflow instance", seq, concurrent=overlap)
+            # (a factory that is also referred to through a non-cached descriptor is legitimately called again: judged by identity below)
+            if cache[f["res"]] and len(creations[f["res"]]) > 1 and f["res"] != alt_name:
+                world.violate("C22.cached-twice", f"cached resource {f['res']} created {len(creations[f['res']])} times for one workflow instance", seq, concurrent=overlap,
+                              async_in_closure=async_in_closure(f["res"]))
         elif kind == "inject":
-            def walk(node, top_inv):
+            def walk(node, top_inv, flip=False):
                 ident = node["id"]
                 name = ident.split("#")[0]
-                if cache[name]:
+                is_cached = (not cache[name]) if flip else cache[name]
+                if is_cached:
                     cached_ids.setdefault(name, set()).add(ident)
                     if len(cached_ids[name]) > 1:
-                        world.violate("C22.cached-identity", f"cached resource {name}: different objects injected {sorted(cached_ids[name])}", seq, concurrent=overlap)
+                        world.violate("C22.cached-identity", f"cached resource {name}: different objects injected {sorted(cached_ids[name])}", seq, concurrent=overlap,
+                                      async_in_closure=async_in_closure(name), alt_descriptor=alt_used and name == alt_name)
                     return      # a cached object keeps the dependencies it was created with
                 else:
+                    if alt_used and name == alt_name and ident in cached_ids.get(name, set()):
+                        world.violate("C22.noncached-shared", f"non-cached descriptor of {name} was handed the cached object {ident}", seq, concurrent=overlap, alt_descriptor=True)
                     inj_by_obj.setdefault(ident, set()).add(top_inv)
                     if len(inj_by_obj[ident]) > 1:
                         world.violate("C22.noncached-shared", f"non-cached object {ident} seen by step invocations {sorted(inj_by_obj[ident])}", seq, concurrent=overlap)
@@ -246,8 +269,9 @@ def check(world, spec, outcome) -> None:
                 for d in node["deps"].values():
                     collect(d)
             for p, tree in f["tree"].items():
-                walk(tree, f["inv"])
-                collect(tree)
+                walk(tree, f["inv"], flip=p in f.get("alt", []))
+                if p not in f.get("alt", []):
+                    collect(tree)
             for name, ids in seen_nc.items():
                 if len(ids) > 1:
                     world.violate("C22.noncached-split", f"within one resolution (invocation {f['inv']}) non-cached resource {name} resolved to {sorted(ids)}", seq, concurrent=overlap)
